@@ -775,7 +775,10 @@ def parser_tie(ctx, lib, viol, cov, repaired=True, workdir=None, crafted=()):
         return 0
     H = ctx.harness
     rng = ctx.rng
-    small = [(t, p, c) for t, p, c in lib if os.path.getsize(p) <= 6000][: (5 if ctx.tier == "quick" else 12)]
+    small = [(t, p, c) for t, p, c in lib if os.path.getsize(p) <= 6000]
+    if ctx.tier == "quick":     # five of them + the one with a string dataset (ReadStrings)
+        small = small[:5] + [x for x in small[5:] if x[0] == "sb2-strings"]
+    small = small[:12]
     td = os.path.join(vlib.REPO, "testdata")
     for n in (TIE_REF if ctx.tier == "quick" else TIE_REF + TIE_REF_MORE):
         if os.path.exists(os.path.join(td, n)):
@@ -791,7 +794,7 @@ def parser_tie(ctx, lib, viol, cov, repaired=True, workdir=None, crafted=()):
         size = len(img)
         targets = parser_targets(H, path)
         if ctx.tier == "quick" and len(targets) > 10:
-            av = [t for t in targets if t[0] == "attrval"][:2]
+            av = [t for t in targets if t[0] in ("attrval", "strings", "compound")][:3]
             targets = targets[:1] + [targets[i] for i in sorted(rng.sample(range(1, len(targets)), 9)) if targets[i] not in av] + av
         vparts.append('Definition img%d : bytes := unhex "%s".\n' % (fi, img.hex()))
         for ti, (op, addr, args) in enumerate(targets):
@@ -825,6 +828,9 @@ def parser_tie(ctx, lib, viol, cov, repaired=True, workdir=None, crafted=()):
             if op == "attrval":     # Model/IOProgSlice.v api_read_attribute with the variable-length string walk
                 vparts.append("Definition bad_%s := Eval vm_compute in mismatches (attrval_tie_ok img%d %d %d %d v_%s) %s.\n" % (
                     name, fi, addr, args[0], args[1], name, name))
+            elif op in ("strings", "compound"):     # Model/IOProgSlice.v api_read_strings / api_read_compound
+                vparts.append("Definition bad_%s := Eval vm_compute in mismatches (read2_tie_ok %s img%d %d v_%s) %s.\n" % (
+                    name, op_code(op), fi, addr, name, name))
             else:
                 vparts.append("Definition bad_%s := Eval vm_compute in mismatches (tie_ok %s img%d %d v_%s) %s.\n" % (
                     name, op_code(op), fi, addr, name, name))
@@ -1109,7 +1115,7 @@ def slice_tie(ctx, lib, viol, cov, workdir):
 TIE_REF = ["v0.h5", "vlen_strings.h5"]
 TIE_REF_MORE = ["with_attributes.h5", "compound_test.h5", "test_3d_chunked.h5", "string_test.h5", "mathcad_document.h5", "with_groups.h5",
                 "test_attr_int32.h5", "reference_traverse.h5"]
-OPCODES = {"superblock": 0, "ohdr": 1, "attrs": 2, "lheap": 3, "snod": 4, "gbtree": 5, "gheap": 6, "read": 7, "attrval": 8}
+OPCODES = {"superblock": 0, "ohdr": 1, "attrs": 2, "lheap": 3, "snod": 4, "gbtree": 5, "gheap": 6, "read": 7, "attrval": 8, "strings": 9, "compound": 10}
 
 
 def op_code(op):
